@@ -70,7 +70,14 @@ def scripted_controller_runs(ctx, tag, n, want=("ctl",)):
         if rng.random() < 0.3:
             sp["options"]["tol_mesh"] = rng.choice([1e-2, 1e-3])
         w = rng.choice([[3, 2, 3, 3], [6, 1, 2, 1], [1, 1, 6, 4], [2, 4, 4, 1]])
-        jobs.append((sp, {"ei_script": {"seed": rng.randint(0, 10 ** 6), "weights": w}, "want": tuple(want)}))
+        kw = {"ei_script": {"seed": rng.randint(0, 10 ** 6), "weights": w}, "want": tuple(want)}
+        if i % 3 == 2:
+            # the candidate generator is scripted too: from the K-th search step on the strategy proposes nothing (as when every ES
+            # candidate is infeasible), at any position within a round of searches; a loop that stops progressing is cut at iter_cap
+            kw["es_script"] = {"empty_after": rng.choice([0, 1, 2, 3, 4, 5, 6, 9])}
+            kw["iter_cap"] = 3000
+            sp["options"]["max_iter"] = 40        # keeps the proved bound (n_try + 1)(max_iter + budget) + 1 well below iter_cap
+        jobs.append((sp, kw))
     tr = tracer.cached(tag, ctx.seed, ctx.tier, lambda: jobs)
     bad = [t for t in tr if "tracer_error" in t]
     if bad:
@@ -272,7 +279,9 @@ def ctl_replay(ctx, rep, pid):
         t = traces[ti]
         sp = t["spec"]
         tag = spec_tag(sp)
-        case = {"kind": "ctl_run", "spec": sp, "kw": ({"ei_script": t["ei_script"]} if t.get("ei_script") else {})}
+        case = {"kind": "ctl_run", "spec": sp, "kw": {k: t[k] for k in ("ei_script", "es_script") if t.get(k)}}
+        if t.get("es_script"):
+            case["kw"]["iter_cap"] = 3000
         stats["runs"] += 1
         stats["scripted_runs"] = stats.get("scripted_runs", 0) + bool(t.get("ei_script"))
         states = r["states"]
